@@ -34,7 +34,8 @@ func TestMain(m *testing.M) {
 		"other protocols one-way; plus conversations that collapse onto another one after source-port aggregation, and non-decisive ones: other protocols two-way, identical ports, both ports common, unknown ICMP types), " +
 		"1-4 scheduled write-outs with per-interval packet scripts (direction, TCP flags / ICMP types consistent with the role, packet type from {host, broadcast, multicast, otherhost, outgoing, unknown, undefined values}, " +
 		"sizes 0..2^32-1, fake-clock instants incl. 1 µs after and 1 ns before a boundary), idle intervals, truncated / runt / non-first-fragment / non-IP packets, status calls and live queries in between, a tail after the last write-out; " +
-		"non-trivial = some conversation has packets in both directions within one interval, has traffic in >= 2 intervals and is idle in an interval that follows one of its active intervals; distinct by the script text")
+		"a second run (paused) additionally scripts packets inside the pause windows of write-outs, status calls and live queries (before the lock is confirmed, while it is held, after the unlock request; both IP families) and checks the same law; " +
+		"non-trivial = some conversation has packets in both directions within one interval, has traffic in >= 2 intervals and is idle in an interval that follows one of its active intervals (paused run: and at least one packet was taken inside a pause window); distinct by the script text")
 	evid.Assume("the stored key of a packet is computed with the exported ParsePacketV4/V6 and ClassifyPacketDirectionV4/V6 (stored = Reverse(hash) iff classified 'reverts'); these are verified by C19 and C22. "+
 		"For decisive conversations the generator checks that every packet of either direction yields the same stored key",
 		"for non-decisive conversations (private address pair each) the record may be stored under the key of either orientation; exactly one of the two records must exist per interval and hold all packets of both directions",
@@ -173,6 +174,78 @@ func TestC20Conservation(t *testing.T) {
 		}
 		if len(res.UnblockBad) > 0 {
 			evid.Class("note:unexpected-unblock-count")
+		}
+	})
+}
+
+// TestC20ConservationWithPauses: the same conservation law when packets arrive while the capture is paused
+// for the write-out, a status call or a live query ("any schedule of write-outs" includes arrivals during one).
+// The exact placement of such packets is C21's subject (twin runs); here only the accounting of the paused
+// run itself is checked against the script in which every window packet is placed on the side of the event
+// where the capture took it.
+func TestC20ConservationWithPauses(t *testing.T) {
+	rapid.Check(t, func(rt *rapid.T) {
+		s := capharness.DrawScript(rt, capharness.Options{Windows: true, V6InWindows: true, Ambiguous: true})
+		res := capharness.Run(t, s)
+		if f := capharness.RunFailure(res); f != nil {
+			evid.Case(s.Canon(), false, "paused:run-failed")
+			rt.Fatalf("%s", evid.Sig("C20:paused-"+f.Clause, "%s\nscript:\n%s", f.Text, s.Canon()))
+		}
+		reports := 0
+		for _, n := range res.Overflows {
+			reports += n
+		}
+		if reports > 0 || len(res.Lost) > 0 {
+			// a reported buffer overflow permits a loss (C21); not generated here (default buffer size)
+			evid.Case(s.Canon(), false, "paused:overflow-reported-outside-domain")
+			return
+		}
+		late := map[int]bool{}
+		for _, d := range res.Deferred {
+			if w := s.Actions[d.Event].Win[d.Iface]; w != nil && w.Pre == d.P {
+				late[d.P.ID] = true
+			}
+		}
+		flat := s.Flat(nil, late)
+		acc := capharness.Account(flat)
+		v4, v6 := 0, 0
+		for _, c := range res.InWindow {
+			if c.P.V6 {
+				v6++
+			} else {
+				v4++
+			}
+		}
+		nt := acc.NonTrivial() && v4+v6 > 0
+		cl := []string{"paused"}
+		if v4 > 0 {
+			cl = append(cl, "paused:in-window-v4")
+		}
+		if v6 > 0 {
+			cl = append(cl, "paused:in-window-v6")
+		}
+		if nt {
+			cl = append(cl, "paused:nontrivial")
+		}
+		evid.Case("paused|"+s.Canon(), nt, cl...)
+		evid.ClassN("paused:packets-in-window", int64(v4+v6))
+		if evid.WantSample(nt) {
+			c := s.Canon()
+			if len(c) > 1500 {
+				c = c[:1500] + "…"
+			}
+			evid.Sample(map[string]any{"kind": "packets inside pause windows", "script": strings.Split(c, "\n"), "in_window_v4": v4, "in_window_v6": v6, "write_outs": len(acc.Rotations)}, nt)
+		}
+		// the accounting of the flat script indexes events by their position in the flat script
+		resF := *res
+		resF.Events = nil
+		for _, ev := range res.Events {
+			e := ev
+			e.Action = flat.EventIndex[ev.Action]
+			resF.Events = append(resF.Events, e)
+		}
+		if f := capharness.CheckConservation(flat, &resF, acc); f != nil {
+			rt.Fatalf("%s", evid.Sig("C20:paused-"+f.Clause, "%s\nscript (packets in pause windows):\n%s", f.Text, s.Canon()))
 		}
 	})
 }
